@@ -134,6 +134,28 @@ func Trees(regs []Reg) (trees map[string]route.Tree, leaves []map[string]route.L
 	return trees, leaves, -1, nil
 }
 
+// AddToTrees registers one more route in trees built by Trees.
+func AddToTrees(trees map[string]route.Tree, g Reg, idx int) (err error) {
+	defer func() {
+		if r := recover(); r != nil {
+			err = fmt.Errorf("registration panicked: %v", r)
+		}
+	}()
+	ast, perr := Parse(g.R)
+	if perr != nil {
+		return perr
+	}
+	for _, m := range model.ExpandMethod(g.M) {
+		if trees[m] == nil {
+			trees[m] = route.NewTree()
+		}
+		if _, aerr := route.AddRoute(trees[m], ast, func(http.ResponseWriter, *http.Request, route.Params) { _ = idx }); aerr != nil {
+			return aerr
+		}
+	}
+	return nil
+}
+
 // Compiled turns registrations into the reference matcher's routes for one
 // method, with registration indexes preserved.
 func Compiled(regs []Reg, method string) []model.MRoute {
